@@ -9,6 +9,11 @@ CLAIMED = {
    ref="DESIGN.md §4 C17"),
 }
 
+CLAIMED["C19"] = dict(
+   text="The counter-style symbol algorithms (cyclic, fixed, symbolic, alphabetic, numeric, additive), reverse, Validate and fallback are under contract: no panic for any integer and any symbol list (index, division, strings.Repeat count), loops terminate (decreases), cyclic picks the residue of value-1 modulo the number of symbols (lemma), fixed/symbolic results as CSS Counter Styles 3 defines, reverse reverses, Validate enforces the symbol-count minima. The counter scoping in boxes.UpdateCounters and the extends/fallback graph in renderValue are NOT under contract.",
+   note="machine-int-as-math; strings.Repeat/Join, fmt.Errorf assumed (extern); strings modelled as byte arrays with an uninterpreted equality; renderValue/resolveCounter/UpdateCounters unverified",
+   ref="DESIGN.md §4 C19")
+
 NOT_YET = {}
 
 NA = {
